@@ -1,6 +1,11 @@
-(* C06 — placeholder, extended below in later stages: frame theorems for the instruction semantics. *)
+(* C06 — Every instruction behaves as the language specification says.
+   The Gallina semantics (model/Ops.v, Interp.v) IS the formal reading of docs.md / language_spec.md; conformance of
+   the implementation to it is decided by differential execution (any disagreement is a failing input). Proved
+   here: the dispatch follows the live opcode table; the documented control scoping: CALL and LOOP absorb a
+   RETURN, a RETURN never survives to a later instruction fetch (with props/C01.v); exact instruction theorems
+   are in props/C02 (signatures), C03 (multisig), C04 (MERKLEVAL), C05 (TAPROOT), C16 (time), C20 (NOP). *)
 From Coq Require Import ZArith List.
-From TS Require Import Bytes State Prog Ops Interp TablesCheck.
+From TS Require Import Bytes State Prog Ops Interp TablesCheck Discipline Scoping.
 Import ListNotations.
 Local Open Scope nat_scope.
 
@@ -14,4 +19,37 @@ Proof.
   - destruct (H1 Hc) as [o Ho]. exists o. split; [exact Ho|]. unfold dispatch. rewrite Ho. reflexivity.
   - unfold dispatch. rewrite (H2 Hc). reflexivity.
 Qed.
+(* a called function returns only to its caller; the caller continues normally *)
+Theorem C06_call_absorbs_return :
+  forall orc cfg f fr st,
+  flag_clear st ->
+  match interp orc cfg (fun t s => run_tape orc cfg f t 0 s) OP_CALL fr st with
+  | Done _ _ st' | Raised _ _ st' => flag_clear st'
+  | _ => True
+  end.
+Proof. exact call_absorbs_return. Qed.
+
+(* a RETURN inside a loop body ends the loop only *)
+Theorem C06_loop_absorbs_return :
+  forall orc cfg f fr st,
+  flag_clear st ->
+  match interp orc cfg (fun t s => run_tape orc cfg f t 0 s) OP_LOOP fr st with
+  | Done _ _ st' | Raised _ _ st' => flag_clear st'
+  | _ => True
+  end.
+Proof. exact loop_absorbs_return. Qed.
+
+(* D2 regression witness: 'true loop { return } if { } false' reaches the final FALSE *)
+Example C06_return_in_loop_ends_only_the_loop :
+  forall orc,
+  let cfg := {| c_max_items := 1024; c_max_item_size := 1024; c_limit := 128%Z; c_flags := []; c_sigext := [];
+                c_ctplugins := []; c_contracts := []; c_now := 0%Z |} in
+  match run_script orc cfg 50 [Byte.x01; Byte.x45; Byte.x00; Byte.x01; Byte.x30; Byte.x2b; Byte.x00; Byte.x00; Byte.x00] [] with
+  | Done _ _ st => st_stack st = [[Byte.x00]]
+  | _ => False
+  end.
+Proof. intro orc. vm_compute. reflexivity. Qed.
+
 Print Assumptions C06_dispatch_total.
+Print Assumptions C06_call_absorbs_return.
+Print Assumptions C06_loop_absorbs_return.
